@@ -41,7 +41,7 @@ type worldOpts struct {
 	Start      gen.Date
 }
 
-var namesPlain = gen.NameOpts{Unicode: true, Spaces: true, Slash: true, Punct: ".,;'()&%+*=!?@_-#", MaxLen: 10}
+var namesPlain = gen.NameOpts{Unicode: true, Spaces: true, Slash: true, Punct: ".,;'()&%+*=!?@_-#{}<>`|^~$[]", MaxLen: 10}
 
 func newWorld(r *rand.Rand, o worldOpts) *World {
 	if o.MaxDays == 0 {
@@ -87,6 +87,12 @@ func newWorld(r *rand.Rand, o worldOpts) *World {
 		if v := caseVariant(w.Basics[0]); !taken[v] && nbas > 1 {
 			w.Basics[nbas-1] = v
 		}
+	}
+	if r.Intn(6) == 0 && nrec >= 3 && !inList(all, w.Recipes[0]+"\u00e9") && !inList(all, w.Recipes[0]+"e\u0301") {
+		// the same text in two Unicode normal forms is two different names: a recipe spelled with a
+		// precomposed é and an undefined food spelled with e + combining accent
+		w.Recipes[2] = w.Recipes[0] + "\u00e9"
+		w.Unknown = append(w.Unknown, w.Recipes[0]+"e\u0301")
 	}
 	concat := nrec >= 2 && r.Intn(6) == 0
 	if concat {
